@@ -1,0 +1,77 @@
+
+/*==
+**
+**    ####   ######  #       #    #   ####
+**   #    #  #       #       ##  ##  #    #
+**   #       ###     #       # ## #  ######    (C) 2016-2020 Rene Eng
+**   #    #  #       #       #    #  #    #        LGPL
+**    ####   ######  ######  #    #  #    #
+**
+**
+--*/
+
+
+/// @file
+/// Verification yield points, see macro CELMA_VERIF_POINT.<br>
+/// Without the preprocessor define CELMA_VERIF this header defines nothing
+/// but an empty macro.
+
+
+#ifndef CELMA_COMMON_DETAIL_VERIF_POINT_HPP
+#define CELMA_COMMON_DETAIL_VERIF_POINT_HPP
+
+
+#ifdef CELMA_VERIF
+
+
+namespace celma { namespace verif {
+
+
+/// Type of the function that a verification driver may install.
+using PointFunc = void (*)( const char*);
+
+
+/// The installed function, NULL (= points do nothing) unless a verification
+/// driver sets it, which it must do before it starts any thread.
+inline PointFunc  gPointFunc = nullptr;
+
+
+/// Called at a verification point: passes the name of the point to the
+/// installed function, if any.
+/// @param[in]  name  The name of the point that was reached.
+inline void point( const char* name)
+{
+   if (gPointFunc != nullptr)
+      gPointFunc( name);
+} // point
+
+
+/// Helper to place a verification point between two sub-objects of a class:
+/// the point is reached when this (empty) member is initialised.
+struct PointMember
+{
+   explicit PointMember( const char* name)
+   {
+      point( name);
+   } // PointMember::PointMember
+}; // PointMember
+
+
+} // namespace verif
+} // namespace celma
+
+
+#define  CELMA_VERIF_POINT( x)  ::celma::verif::point( x)
+
+#else
+
+#define  CELMA_VERIF_POINT( x)
+
+#endif   // CELMA_VERIF
+
+
+#endif   // CELMA_COMMON_DETAIL_VERIF_POINT_HPP
+
+
+// =====  END OF verif_point.hpp  =====
+
